@@ -97,8 +97,13 @@ def check(ctx):
     for m in r.moves:
         src = m.data['roles']['src']
         chain = transformer_chain(src, r.is_arg)
-        ctx.require(chain is not None, 'R01.1: MOVE source %s does not derive from the '
-                                       'argument' % short(src))
+        if chain is None:
+            ctx.ob('R01.6', 'MOVE source is the argument, through path normalisers only',
+                   False, node=m,
+                   message='trash-put moves %s, which does not derive from the argument '
+                           '(something else than the entry named is renamed into the trash '
+                           'directory)' % short(src, 100))
+            continue
         sink_strips = strips_trailing_sep(chain, src, r.is_arg)
         for lit in ('.', '..'):
             ops = [o for l, o in guard_cmps if l == lit]
